@@ -65,10 +65,10 @@ var props = []Prop{
 	},
 	{
 		ID: "C03",
-		Harnesses: []H{{Pkg: "ecs", Fn: "HC03_Query"}, {Pkg: "ecs", Fn: "HC03_BatchQuery"}, {Pkg: "ecs", Fn: "HC03_Query", Tags: "tiny", Tier: "thorough"}},
+		Harnesses: []H{{Pkg: "ecs", Fn: "HC03_Query"}, {Pkg: "ecs", Fn: "HC03_BatchQuery"}, {Pkg: "ecs", Fn: "HC03_Query", Tags: "tiny", Tier: "thorough"}, {Pkg: "filter", Fn: "HC03_Logic", W: 4}, {Pkg: "filter", Fn: "HC03_Logic", W: 4, Tags: "tiny"}},
 		Conform: stdConform,
-		Bounds:  "10 scripted prefixes (thorough: + one symbolic legal operation) x 8 filter kinds (All, mask, without, exclusive, relation filters with every issued handle / zero as target), plain and registered; per query: full iteration against the model, Count, EntityAt(i) for a fully symbolic 64-bit i, j Next calls followed by Step(s) for a fully symbolic 64-bit s; batch-result queries of ExchangeQ / SetRelationQ / NewBatchQ with all legal arguments: Count, EntityAt for every index, iteration, symbolic EntityAt / Step within the int32 range; 3 configurations (thorough 6)",
-		Outside: "logic-combination filters at world level (their Matches is decided in C04; queries only call Matches); more than 10 entities; relation filters nested inside other filters (documented as unsupported)",
+		Bounds:  "10 scripted prefixes (thorough: + one symbolic legal operation) x 8 filter kinds (All, mask, without, exclusive, relation filters with every issued handle / zero as target), plain and registered; per query: full iteration against the model, Count, EntityAt(i) for a fully symbolic 64-bit i, j Next calls followed by Step(s) for a fully symbolic 64-bit s; batch-result queries of ExchangeQ / SetRelationQ / NewBatchQ with all legal arguments: Count, EntityAt for every index, iteration, symbolic EntityAt / Step within the int32 range; 3 configurations (thorough 6); HC03_Logic (package filter): 10 logic-filter expressions over And/Or/XOr/Not/Any/NoneOf/AnyNot, plain and registered (with tables created after registration), on a world holding every subset of 3 components, optional removal: visited set, Count and lock release against the boolean definition",
+		Outside: "logic filters beyond the 10 expressions of HC03_Logic at world level (all expressions up to nesting 2-3 are decided at the Matches level in C04; queries only call Matches); more than 10 entities; relation filters nested inside other filters (documented as unsupported)",
 	},
 	{
 		ID: "C05",
